@@ -78,9 +78,9 @@ fn su(r: std::io::Result<()>) -> (u64, u64) {
 }
 
 /// a heap array that outlives the slices / cursors borrowed from it (freed in Drop)
-struct Backing {
-    ptr: *mut u8,
-    len: usize,
+pub(crate) struct Backing {
+    pub(crate) ptr: *mut u8,
+    pub(crate) len: usize,
 }
 impl Backing {
     fn new(content: &[u8]) -> Backing {
@@ -181,7 +181,7 @@ fn dec_msgs(l: &[u128]) -> Vec<Vec<u8>> {
     out
 }
 
-enum Stream {
+pub(crate) enum Stream {
     /// message queue: `a` is the end under test, `b` the peer (stays open)
     Msg { a: OwnedFd, b: OwnedFd, kind: u64 },
     SliceR { back: Backing, cur: &'static [u8] },
@@ -215,7 +215,7 @@ impl Stream {
         Stream::Msg { a, b, kind }
     }
 
-    fn new(kind: u64, content: &[u8], pos: u64, vm: bool) -> Stream {
+    pub(crate) fn new(kind: u64, content: &[u8], pos: u64, vm: bool) -> Stream {
         match kind {
             0 => {
                 let back = Backing::new(content);
@@ -278,7 +278,7 @@ impl Stream {
     }
 
     /// (data, pos, out) observed independently of the adapter
-    fn observe(&mut self) -> (Tok, u64, Tok) {
+    pub(crate) fn observe(&mut self) -> (Tok, u64, Tok) {
         if let Stream::Msg { a, b, .. } = self {
             // what the adapter sent, then what is still queued for it (sent again in the same order)
             let out = recv_all(b.as_raw_fd());
@@ -790,7 +790,7 @@ use crate::fdscript::{self, Beh};
 
 impl Stream {
     /// the descriptor an operation of the given direction goes to
-    fn raw_fd(&self, is_read: bool) -> i32 {
+    pub(crate) fn raw_fd(&self, is_read: bool) -> i32 {
         match self {
             Stream::FileS { f, .. } => f.as_raw_fd(),
             Stream::Sock { a, .. } => a.as_raw_fd(),
